@@ -152,6 +152,43 @@ Proof.
   - rewrite A_transpose_height. exact HY.
 Qed.
 
+(* the base-set forms: extension_i(X, base_objects_i=B) / intention_i(X, base_attrs_i=B) *)
+Theorem ext_spec_transpose t X B : wf t -> ext_spec (A_transpose t) X B = int_spec t X B.
+Proof.
+  intros Hwf. unfold ext_spec, int_spec. apply filter_ext. intros g. apply forallb_ext_in.
+  intros m _. unfold I. apply cell_A_transpose. exact Hwf.
+Qed.
+
+Theorem int_spec_transpose t Y B : wf t -> int_spec (A_transpose t) Y B = ext_spec t Y B.
+Proof.
+  intros Hwf. unfold ext_spec, int_spec. apply filter_ext. intros g. apply forallb_ext_in.
+  intros m _. unfold I. apply cell_A_transpose. exact Hwf.
+Qed.
+
+Theorem extension_i_transpose_base b t X B :
+  wf t -> nondegenerate t -> in_range (height t) X -> in_range (width t) B ->
+  extension_i b (transpose b t) X (Some B) = intention_i b t X (Some B).
+Proof.
+  intros Hwf Hn HX HB. rewrite transpose_backend.
+  rewrite extension_i_correct; [|apply A_transpose_wf| |].
+  - rewrite intention_i_correct; [|exact Hwf|exact HX|exact HB].
+    simpl. apply (ext_spec_transpose t X B Hwf).
+  - rewrite A_transpose_width_nondeg by exact Hn. exact HX.
+  - simpl. rewrite A_transpose_height. exact HB.
+Qed.
+
+Theorem intention_i_transpose_base b t Y B :
+  wf t -> nondegenerate t -> in_range (width t) Y -> in_range (height t) B ->
+  intention_i b (transpose b t) Y (Some B) = extension_i b t Y (Some B).
+Proof.
+  intros Hwf Hn HY HB. rewrite transpose_backend.
+  rewrite intention_i_correct; [|apply A_transpose_wf| |].
+  - rewrite extension_i_correct; [|exact Hwf|exact HY|exact HB].
+    simpl. apply (int_spec_transpose t Y B Hwf).
+  - rewrite A_transpose_height. exact HY.
+  - simpl. rewrite A_transpose_width_nondeg by exact Hn. exact HB.
+Qed.
+
 (* ------------------------------------------------------------------ concepts *)
 
 Theorem is_concept_transpose t A B :
